@@ -93,7 +93,7 @@ def make(prop, theorems, *, model_notes=None, refuted_full=None, driver_exe=None
                                           "fields": ["bad-request"], "request": line})
                 continue
             for i, (o, m) in enumerate(zip(obs, model)):
-                d = sx.compare_op(prop, o, m)
+                d = sx.compare_op(prop, o, m, ops[i])
                 if d:
                     res.disagreements.append({"case": {"ops": ops[:i + 1]}, "real": o, "model": m,
                                               "fields": d, "op_index": i, "shape": ops[i]["shape"],
